@@ -93,6 +93,28 @@ pub fn all() -> Vec<Prop> {
             shards_quick: 8,
             shards_thorough: 16,
         },
+        Prop {
+            id: "C18",
+            run: props::bulk::run_c18,
+            replayers: props::bulk::replayers,
+            rule: "proptest, four checkers: (a) quantiles_axis_mut / quantiles_mut with request lists of 0..32 q (any order, forced repeats, boundary-constructed q sharing lower/higher indexes) on arrays/axes/layouts/strategies/pivot scripts as in C01: slice j must equal the single-quantile call for q_j on a fresh copy (==); (b) get_many_from_sorted_mut vs get_from_sorted_mut per requested index; (c) central_moments(p)[k] vs central_moment(k) bit for bit, p in 0..10, f32/f64, 1-3-D layouts; (d) weighted_sum/mean/var/std_axis vs the whole-array routine on each lane (integers exact and equal to the i128 sum; floats within the summation budget; bit-identity is reported as a class). Distinct by hash of the whole case. Non-trivial: (a) >= 2 requests with a repeat or a shared index and lane length >= 3; (b) >= 2 requests with a repeat, length >= 3; (c) order >= 2, >= 3 non-constant elements; (d) >= 2-D, lane length >= 3, non-uniform weights.",
+            assumptions: COMMON_ASSUMPTIONS,
+            profiles_quick: BOTH,
+            profiles_thorough: BOTH,
+            shards_quick: 8,
+            shards_thorough: 16,
+        },
+        Prop {
+            id: "C19",
+            run: props::order::run_c19,
+            replayers: props::order::replayers,
+            rule: "proptest lanes of every Ord element type (values as in C01; 64-bit integers below 2^52) with 1..13 boundary-constructed q plus 0 and 1, sorted; for each of the 5 strategies: non-decreasing in q, Q(0)=min, Q(1)=max, within [min,max]; Lower <= Nearest/Midpoint/Linear <= Higher at equal q; all five equal when the f64 product (N-1)q is integral; equal results on a generated permutation of the lane; Lower/Higher/Nearest commute with a generated strictly increasing relabelling table. Float Midpoint/Linear order relations get a slack of 2 ulp of the largest lane magnitude. Enumeration: ALL permutations of a distinct and a tied i32 lane of length <= 6 (quick) / 8 (thorough). Distinct by hash (random) / by construction (permutations). Non-trivial: >= 3 distinct values and (a q pair straddling/touching an index boundary, or a non-identity permutation, or a relabelling).",
+            assumptions: COMMON_ASSUMPTIONS,
+            profiles_quick: BOTH,
+            profiles_thorough: BOTH,
+            shards_quick: 8,
+            shards_thorough: 16,
+        },
     ]
 }
 
